@@ -45,28 +45,54 @@ def write_protocol(ctx, prog, rule):
         S.before(a, b)
     for n in ("start-position", "placeholder-header", "copy", "end-position", "seek-start", "final-header", "seek-end", "align"):
         ctx.ob(rule, "single-site/%s/%s" % (short(f.path), n), len(S.steps.get(n, [])) == 1, "%d sites of step %s" % (len(S.steps.get(n, [])), n), nontrivial=False)
-    # section_length <- copied byte count, assigned between the two header writes
+    # the header value handed to the final to_writer: a literal built after the copy, or the placeholder updated by an
+    # assignment to its section_length between the two header writes
+    def header_len_tree(call_block):
+        t = R.operand(f.blocks[call_block]["term"]["args"][0])
+        x = t
+        for _ in range(4):
+            if x[0] == "partial":
+                return ("partial", x[1])
+            if x[0] == "agg" and x[1][0] == "adt" and x[1][1] == "blob::BlobSectionHeader":
+                return ("literal", x[2][0])
+            if x[0] == "const" and "BlobSectionHeader" in str(x[1]) and isinstance(x[2], tuple) and len(x[2]) == 8:
+                # a promoted constant struct: its only field as little-endian bytes
+                return ("literal", ("const", "u64", int.from_bytes(bytes(x[2]), "little")))
+            y = strip(x)
+            if y == x:
+                break
+            x = y
+        return (None, None)
     sl = field_assignments(f, "blob::BlobSectionHeader", "section_length")
-    ok = len(sl) == 1
-    desc = ""
-    if ok:
-        bi, si, kind, payload = sl[0]
-        t = strip(R.rvalue(payload))
-        desc = tree_str(strip_deep(t))
-        ok = False
-        if t[0] == "call" and t[1].endswith("next_multiple_of") and const_val(t[2][1]) == 4:
-            s = strip_casts(t[2][0])
-            if s[0] == "binop" and s[1] == "Add":
-                parts = [strip(s[2]), strip(s[3])]
+    ok, desc = False, ""
+    vt = None
+    assign_block = None
+    if second:
+        kind_, val_ = header_len_tree(second[0])
+        if kind_ == "literal":
+            vt = strip(val_)
+        elif len(sl) == 1:
+            assign_block = sl[0][0]
+            vt = strip(R.rvalue(sl[0][3]))
+    if vt is not None:
+        desc = tree_str(strip_deep(vt))
+        if vt[0] == "call" and vt[1].endswith("next_multiple_of") and const_val(vt[2][1]) == 4:
+            s_ = strip_casts(vt[2][0])
+            if s_[0] == "binop" and s_[1] == "Add":
+                parts = [strip(s_[2]), strip(s_[3])]
                 ok = any(const_val(x) == 16 for x in parts) and any(x[0] == "call" and x[1].endswith("io::copy") for x in parts)
-        ok = ok and bool(second) and f.dominates(bi, second[0])
+        if assign_block is not None:
+            ok = ok and f.dominates(assign_block, second[0])
     ctx.ob(rule, "header-length/%s" % short(f.path), ok, "section_header.section_length <- %s (must be header size 16 + the byte count returned by io::copy, rounded up to a multiple of 4, before the final header write)" % desc)
     # placeholder length 0
     okp = False
-    for bi in f.cfg():
-        for st in f.blocks[bi]["stmts"]:
-            if is_variant_agg(st["rv"], "blob::BlobSectionHeader", "BlobSectionHeader"):
-                okp = const_val(R.operand(st["rv"]["ops"][0])) == 0
+    if first:
+        kind_, val_ = header_len_tree(first[0])
+        if kind_ == "literal":
+            okp = const_val(val_) == 0
+        elif kind_ == "partial":
+            x = strip(val_)
+            okp = x[0] == "agg" and const_val(x[2][0]) == 0 and all(not f.dominates(b, first[0]) for b, _, _, _ in sl)
     ctx.ob(rule, "placeholder-length/%s" % short(f.path), okp, "the temporary blob section header carries length 0", nontrivial=False)
     # result descriptor
     okd = False
@@ -285,11 +311,8 @@ def image_siblings(ctx, prog, rule):
             ctx.ob(rule, "image-slot/%s" % name, ok, "stored into image.projection as Projection::%s" % variant)
             # already-set guard
             okg = False
-            for bi, t in f.calls(lambda c, t: c.endswith("Option::<T>::is_some")):
-                if self_field(R.operand(t["args"][0])) == "image.projection":
-                    be = bool_edges(f, bi)
-                    if be:
-                        okg = f.ok_reachable(start=[be[1]]) is None
+            for sw, some, none in option_tests(f, R, lambda x: self_field(x) == "image.projection"):
+                okg = okg or f.ok_reachable(start=[some]) is None
             ctx.ob(rule, "image-already-set-guard/%s" % name, okg, "%s fails when a projection is already set" % name)
     ctx.floor(rule, "add_* sibling functions", n, 4)
     # finalize pushes the image built by this writer
@@ -334,24 +357,32 @@ def enum_tag_bijection(ctx, prog, rule):
     ctx.fn_seen(g)
     Rg = Resolver(g)
     r = {}
-    cl_tags = {}
-    for cl in prog.closures_of(g):
-        Rc = Resolver(cl)
-        for bi, t in cl.calls(lambda c, t: c.endswith("has_tag_name")):
-            tag = strip(Rc.operand(t["args"][1]))
-            cl_tags[cl.path] = tag[2] if tag[0] == "const" else None
+    import xml_rules
     for bi in g.cfg():
         for st in g.blocks[bi]["stmts"]:
             rv = st["rv"]
             if is_variant_agg(rv, "images::ImageBlob", "ImageBlob"):
                 vals = dict(zip(rv["kind"]["fields"], rv["ops"]))
                 fmt = strip(Rg.operand(vals["format"]))
-                data = strip(Rg.operand(vals["data"]))
-                # data = Blob::from_node(node found by closure k)
-                cls = [x for x in leaves(Rg.operand(vals["data"])) if x[0] == "agg" and x[1][0] == "closure"]
-                tag = cl_tags.get(cls[0][1][1]) if cls else None
-                if fmt[0] == "agg":
-                    r[fmt[1][2]] = tag
+                data = Rg.operand(vals["data"])
+                # data = Blob::from_node(node found by a has_tag_name lookup); one literal per format, or one literal
+                # fed by a match whose arms pair (node, format)
+                fmts = list(fmt[1]) if fmt[0] == "phi" else [fmt]
+                nodes = None
+                d = strip(data)
+                if d[0] == "call" and d[2]:
+                    a0 = d[2][0]
+                    a0s = strip(a0)
+                    nodes = list(a0s[1]) if a0s[0] == "phi" else [a0]
+                if nodes is None or len(nodes) != len(fmts):
+                    nodes = [data] * len(fmts)
+                for fa, na in zip(fmts, nodes):
+                    fa = strip(fa)
+                    tags = xml_rules.child_tags(prog, na)
+                    if fa[0] == "agg" and len(tags) == 1:
+                        r[fa[1][2]] = tags[0]
+                    elif fa[0] == "const" and isinstance(fa[2], tuple) and fa[2] and fa[2][0] == "enum" and len(tags) == 1:
+                        r[fa[2][1]] = tags[0]
     want = {"Png": "pngImage", "Jpeg": "jpegImage"}
     ctx.ob(rule, "format-tag/writer", w == want, "ImageBlob::xml_string: %s (expected %s)" % (w, want))
     ctx.ob(rule, "format-tag/reader", r == want, "ImageBlob::from_rep_node: %s (expected %s)" % (r, want))
